@@ -31,6 +31,7 @@ type c10P struct {
 	HashH  uint64 `json:"hash_h,omitempty"`
 	Raw    string `json:"raw,omitempty"` // truncated | oversized | garbage | noclose | empty | bytes
 	Seed   int64  `json:"seed,omitempty"`
+	Prior  int    `json:"prior,omitempty"` // ordinary range requests served by the same server before the probe (cross-request state)
 }
 
 const (
@@ -66,12 +67,20 @@ func TestC10(t *testing.T) {
 		}
 		for _, raw := range []string{"truncated", "oversized", "garbage", "noclose", "empty", "nodata"} {
 			mon.Emit(r, "request", c10P{Tail: T, Head: Hd, Kind: "raw", Raw: raw}, "request")
+			mon.Emit(r, "request", c10P{Tail: T, Head: Hd, Kind: "raw", Raw: raw, Prior: 3}, "request")
+		}
+		// probes that leave fields off the wire, after the server has served ordinary requests
+		for _, o := range []uint64{0, T, mid, Hd} {
+			mon.Emit(r, "request", c10P{Tail: T, Head: Hd, Kind: "range", Origin: o, Amount: 0, Prior: 3}, "request")
+		}
+		for _, hk := range []string{"present", "absent", "empty"} {
+			mon.Emit(r, "request", c10P{Tail: T, Head: Hd, Kind: "hash", Hash: hk, HashH: mid, Amount: 0, Prior: 3}, "request")
 		}
 	}
 	rng := r.Rand("c10")
 	for i := 0; i < r.N(120, 19000); i++ {
 		sh := shapes[rng.Intn(2)]
-		p := c10P{Tail: sh[0], Head: sh[1], Seed: rng.Int63()}
+		p := c10P{Tail: sh[0], Head: sh[1], Seed: rng.Int63(), Prior: rng.Intn(3)}
 		switch rng.Intn(3) {
 		case 0:
 			p.Kind, p.Origin, p.Amount = "range", uint64(rng.Int63n(int64(sh[1]+80))), uint64(rng.Int63n(90))
@@ -101,6 +110,15 @@ func c10Run(c *mon.Case, p c10P) {
 			c.T.Fatalf("connect: %v", err)
 		}
 		synctest.Wait()
+		for i := 0; i < p.Prior; i++ {
+			o := p.Tail + uint64(i)
+			pr := rawRequest(w, 1, 0, encodeReq(originReq(o, 4)), true, 30*time.Second)
+			synctest.Wait()
+			c.Count("prior requests", 1)
+			if len(pr.Frames) != 4 {
+				c.Violation("prior-request-not-served", fmt.Sprintf("ordinary request (origin %d, amount 4) got %d frames, end %s", o, len(pr.Frames), pr.End), nil)
+			}
+		}
 		se.rs.Reset()
 		se.d.ResetReads()
 
@@ -201,6 +219,9 @@ func c10Run(c *mon.Case, p c10P) {
 			kind = "ok"
 		default:
 			kind = "mixed"
+		}
+		if p.Prior > 0 {
+			class += " after-prior"
 		}
 		c.Class("tail=%d %s => %s", p.Tail, class, kind)
 		sig := p.Kind
